@@ -41,7 +41,63 @@ def cases(tier):
     for entry in ("generator", "generate"):
         # two grades of one species: components whose plain notation is the same text
         out.append({"name": f"{entry}/k2-same-species", "k": 2, "entry": entry, "text": "C.|50%|C.|100|"})
+    # the same System object used again: a later ensemble / single generation follows the law of the first
+    for first in ("generator", "generate"):
+        for second in ("generator", "generate"):
+            out.append({"name": f"second-use/{first}-then-{second}", "k": 3, "kind": "second-use", "first": first, "second": second})
     return out
+
+
+SECOND_TEXT = "C.|50%|CC.|30%|CCC.|100|"
+
+
+def _run_second_use(case, g, tier, res, on_path, System):
+    def h(c):
+        system = g.System(SECOND_TEXT)
+        called = []
+
+        def stub(i):
+            def gen(prefix=None, rng=None, **_more):
+                if len(called) >= 6:
+                    raise core.emulated(RuntimeError("unwinding bound: two molecules are asked for, more than 6 were generated"))
+                called.append(i)
+                return FakeMolGen(i, 0, 1e6, True)  # heavier than the system: one molecule ends an ensemble
+            return gen
+
+        for i, mol in enumerate(system._molecules):
+            mol.generate = stub(i)
+        laws = []
+        for use, entry in enumerate((case["first"], case["second"])):
+            cap = []
+            rng = SymRng(on_choice=lambda rec, c, cap=cap: cap.append(rec))
+            n0 = len(called)
+            if entry == "generator":
+                System.generator.fget.__defaults__ = (rng,)
+                next(iter(system.generator))
+            else:
+                system.generate(rng=rng)
+            us = [v for (_, v) in rng.other_calls]
+            if len(called) != n0 + 1 or len(cap) + len(us) != 1:
+                raise core.Unsupported(f"component pick with {len(cap)} choice calls and {len(us)} other draws")
+            laws.append((cap[0].p if cap else None, us[0] if us else None, called[-1], len(cap[0].items) if cap else None))
+
+        def build(mv, c):
+            return ("C14:second-use:a later use of the same system follows another pick law than the first",
+                    f"System({SECOND_TEXT!r}): {case['first']} then {case['second']} on the same object: the second component pick follows another law than the first",
+                    {"kind": "second-use", "first": case["first"], "second": case["second"], "k": 3})
+
+        (p1, u1, i1, n1), (p2, u2, i2, n2) = laws
+        if p1 is not None and p2 is not None:
+            same = n1 == n2 and len(p1) == len(p2) and And(*[abs(a - b) < 1e-12 for a, b in zip(p1, p2)])
+            c.prove(same, "a later use of the same system follows the pick law of the first", build)
+        elif u1 is not None and u2 is not None:
+            c.assume(u1 == u2)  # the same uniform draw ...
+            c.prove(i1 == i2, "a later use of the same system follows the pick law of the first", build)  # ... picks the same component
+        else:
+            raise core.Unsupported("the two uses pick their component in different ways")
+        return (i1, i2)
+
+    explore_case(res, h, tier, on_path=on_path, budget_s=300)
 
 
 def run_case(case, g, tier, res):
@@ -49,6 +105,8 @@ def run_case(case, g, tier, res):
     sysmod = sys.modules["gbigsmiles.system"]
     System = sysmod.System
     k = case["k"]
+    if case.get("kind") == "second-use":
+        return _run_second_use(case, g, tier, res, on_path, System)
 
     def h(c):
         system = g.System(case.get("text") or (TEXT[k] if k in TEXT else T4))
@@ -157,6 +215,22 @@ def replay(rp, gb):
     from gbigsmiles.system import System
 
     k = rp["k"]
+    if rp.get("kind") == "second-use":
+        # the same seed for the first and for the second use of one System object: the same law gives the same component
+        diff = []
+        for seed in range(200):
+            system = gb.System(SECOND_TEXT)
+            got = []
+            for entry in (rp["first"], rp["second"]):
+                rr = np.random.default_rng(seed)
+                if entry == "generator":
+                    System.generator.fget.__defaults__ = (rr,)
+                    got.append(next(iter(system.generator)).smiles)
+                else:
+                    got.append(system.generate(rng=rr).smiles)
+            if got[0] != got[1]:
+                diff.append((seed, got))
+        return bool(diff), f"{len(diff)} of 200 seeds give another component on the second use of the same System object: {diff[:3]}"
     f = rp["fractions"]
     # components: alkanes of increasing size, the mass ordering follows the counter-example's mbar ordering
     order = sorted(range(k), key=lambda i: rp["mbar"][i])
